@@ -70,9 +70,11 @@ Section AddrText.
 
   (* ---- SegWit *)
   Definition p2wpkh_encode (hrp pub_c : list N) : res (list N) := segwit_enc hrp p2wpkh_wit_ver (h160 pub_c).
+  (* the length check: SegwitBech32Decoder also admits 32-byte programs for version 0 (P2WSH) *)
   Definition p2wpkh_decode (hrp addr : list N) : res (list N) :=
     vd <- checksum_to_value_error (segwit_dec hrp addr) ;;
     let '(v, d) := vd in
+    _ <- validate_length d hash160_len ;;
     if v =? p2wpkh_wit_ver then Ok d else Err ValueError.
 
   (* P2TR: the tweaked output key (BIP-341) is computed by [tweak] (EC arithmetic: C12's layer) *)
@@ -97,8 +99,13 @@ Section AddrText.
   (* ---- Base32 *)
   Definition algo_checksum (pub32 : list N) : list N := take_last algo_cklen (sha512_256 pub32).
   Definition algo_encode (pub32 : list N) : res (list N) := b32_enc_nopad None (pub32 ++ algo_checksum pub32).
+  (* only the canonical encoding is an address: Base32Encoder.EncodeNoPadding(decoded) != addr -> ValueError
+     (no '=' characters, unused bits of the last character zero) *)
+  Definition canonical_b32 (al : option (list N)) (d text : list N) : res unit :=
+    e <- b32_enc_nopad al d ;; if list_eqb e text then Ok tt else Err ValueError.
   Definition algo_decode (addr : list N) : res (list N) :=
     d <- b32_dec None addr ;;
+    _ <- canonical_b32 None d addr ;;
     _ <- validate_length d (ed25519_compr_len + algo_cklen - 1)%nat ;;
     let (pub, ck) := split_by_checksum d algo_cklen in
     _ <- validate_checksum pub ck algo_checksum ;;
@@ -131,6 +138,7 @@ Section AddrText.
     | t :: body =>
       if negb (Z.eqb (Z.of_N t - 48) (Z.of_N fil_secp_type)) then Err ValueError
       else d <- b32_dec (Some fil_alphabet) body ;;
+           _ <- canonical_b32 (Some fil_alphabet) d body ;;
            _ <- validate_length d (blake2b160_len + blake2b32_len)%nat ;;
            let (h, ck) := split_by_checksum d blake2b32_len in
            _ <- validate_checksum h ck (fil_checksum fil_secp_type) ;;
@@ -146,6 +154,7 @@ Section AddrText.
     a <- validate_and_remove_prefix addr nano_prefix ;;
     d <- b32_dec (Some nano_alphabet) (nano_pad_enc ++ a) ;;
     _ <- validate_length d (ed25519_compr_len + blake2b40_len + length nano_pad_dec - 1)%nat ;;
+    _ <- validate_and_remove_prefix d nano_pad_dec ;;      (* the bits in front of the key shall be zero *)
     let (pub, ck) := split_by_checksum (skipn (length nano_pad_dec) d) blake2b40_len in
     _ <- validate_checksum pub ck nano_checksum ;;
     if valid_pub 3 pub then Ok pub else Err ValueError.
